@@ -955,7 +955,7 @@ func c29Module(api s3API, bucket, ns, proxyID, alg string) *lfsModule {
 	return m
 }
 
-// c29Backend is a loopback Kafka stand-in: it records every request frame and answers with a dummy frame.
+// c29Backend is a loopback Kafka stand-in: it records every request frame and answers a produce with a success acknowledgement for every partition.
 type c29Backend struct {
 	ln     net.Listener
 	mu     sync.Mutex
@@ -984,7 +984,25 @@ func c29StartBackend(t *testing.T) *c29Backend {
 					b.mu.Lock()
 					b.frames = append(b.frames, fr.Payload)
 					b.mu.Unlock()
-					if err := protocol.WriteFrame(c, []byte{0, 0, 0, 0, 0, 0, 0, 0}); err != nil {
+					// acknowledge every partition of the produce with error code 0 (the proxy checks the acknowledgement)
+					reply := []byte{0, 0, 0, 0, 0, 0, 0, 0}
+					if hdr, req, perr := protocol.ParseRequest(fr.Payload); perr == nil {
+						if pr, ok := req.(*kmsg.ProduceRequest); ok {
+							resp := kmsg.NewPtrProduceResponse()
+							for _, tp := range pr.Topics {
+								rt := kmsg.NewProduceResponseTopic()
+								rt.Topic = tp.Topic
+								for _, pp := range tp.Partitions {
+									rp := kmsg.NewProduceResponseTopicPartition()
+									rp.Partition = pp.Partition
+									rt.Partitions = append(rt.Partitions, rp)
+								}
+								resp.Topics = append(resp.Topics, rt)
+							}
+							reply = protocol.EncodeResponse(hdr.CorrelationID, hdr.APIVersion, resp)
+						}
+					}
+					if err := protocol.WriteFrame(c, reply); err != nil {
 						return
 					}
 				}
